@@ -1449,7 +1449,6 @@ func countNeeds(fi *fnLock, want map[string]bool) int {
 	return n
 }
 
-
 // autoGuard: a field of a lock-carrying shared struct that is in no table but is written after construction (a store on a
 // non-fresh object, an in-place container update, or its address handed out) is treated as guarded by the struct's lock, so
 // that the guarded-by discipline is checked for it instead of demanding a table entry: a new field that is properly locked
